@@ -225,6 +225,7 @@ func (fr *Frame) execRecv(ins *ssa.UnOp, st *State) {
 	vn := vc.fresh("recv")
 	vc.define(vn, vc.sortOf(ct.Elem()), val)
 	vc.assumeIf(fr.curReach, vc.wf(ct.Elem(), vn))
+	fr.instantiateChanFacts(c, fmt.Sprintf("(select %s %s)", vc.get(st, vc.chposComp()), c.S), hn)
 	comp := vc.chposComp()
 	cur := vc.get(st, comp)
 	vc.set(st, comp, fmt.Sprintf("(store %s %s (+ (select %s %s) (ite %s 1 0)))", cur, c.S, cur, c.S, hn))
@@ -265,6 +266,7 @@ func (fr *Frame) execSelect(ins *ssa.Select, st *State) {
 		vn := vc.fresh("selval")
 		vc.define(vn, vc.sortOf(ct.Elem()), val)
 		vc.assumeIf(and(fr.curReach, chosen), vc.wf(ct.Elem(), vn))
+		fr.instantiateChanFacts(c, fmt.Sprintf("(select %s %s)", cur, c.S), and(chosen, hn))
 		newPos = fmt.Sprintf("(ite %s (store %s %s (+ (select %s %s) (ite %s 1 0))) %s)", chosen, cur, c.S, cur, c.S, hn, newPos)
 		okT = fmt.Sprintf("(ite %s %s %s)", chosen, hn, okT)
 		vals = append(vals, Term{vn, vc.sortOf(ct.Elem()), ct.Elem()})
